@@ -63,7 +63,7 @@ def _sz_quantile(mw, mn, u):
 def check(rep):
     from gbigsmiles.distribution import get_distribution
 
-    coq = fw.coq_check("C09", ["SrcDist"])
+    coq = fw.coq_check("C09", ["SrcDist", "SrcDistLaw"])
     quick = rep.tier == "quick"
     rnd = random.Random(rep.seed + 9)
     evaluations = 0
